@@ -83,8 +83,16 @@ XMLUTF16Transcoder::transcodeFrom(  const   XMLByte* const       srcData
         //  that this also handles size conversion as well if XMLCh is not the
         //  same size as UTF16Ch.
         //
+        //  The source bytes need not be aligned for UTF16Ch (a raw buffer
+        //  position can be odd), so fetch each unit with memcpy.
+        const XMLByte* inPtr = srcData;
         for (XMLSize_t index = 0; index < countToDo; index++)
-            *outPtr++ = BitOps::swapBytes(*asUTF16++);
+        {
+            UTF16Ch tmp;
+            memcpy(&tmp, inPtr, sizeof(UTF16Ch));
+            inPtr += sizeof(UTF16Ch);
+            *outPtr++ = BitOps::swapBytes(tmp);
+        }
     }
      else
     {
